@@ -51,11 +51,30 @@ def opcode_handlers():
     return out
 
 
+def recorded_files():
+    """harness fn -> source files its solver query had checks in (recorded from earlier runs on the
+    unchanged tree: gen/harness_files.json)"""
+    try:
+        import json
+        return json.load(open(os.path.join(VERIF, "gen", "harness_files.json")))
+    except Exception:
+        return {}
+
+
 def focus(allh, files):
     """-> set of harness names (fully qualified) that exercise a changed file"""
     if not files:
         return set()
     sel = set()
+    rec = recorded_files()
+    fset = set(files)
+    precise = set()
+    for h in allh:
+        fl = rec.get(h["fn"])
+        if fl is not None:
+            precise.add(h["fn"])
+            if fset & set(fl):
+                sel.add(h["name"])
     mods = set()
     shared_hint = False
     engine_files = set()
@@ -78,6 +97,8 @@ def focus(allh, files):
                 src = src_cache.setdefault(h["file"], open(h["file"]).read())
                 if re.search(r"tables::%s\b" % re.escape(mod), src):
                     sel.add(h["name"])
+        if fn in precise:
+            continue   # decided from the recorded check locations of this very query
         if fn.startswith("c02_op_"):
             op = fn.split("_", 3)[3] if fn.count("_") >= 3 else ""
             hf = handlers.get(op)
